@@ -21,6 +21,17 @@ type Limits struct {
 	SolverKind   string
 	TimeoutMs    int
 	Deadline     time.Time
+	MaxSamples   int
+}
+
+// PathSample is a concrete witness of one completed path: the inputs (a solver
+// model of the path condition) and what the harness observed on it.
+type PathSample struct {
+	Harness   string            `json:"harness"`
+	Decisions string            `json:"decisions"`
+	Model     map[string]uint64 `json:"model"`
+	Strings   map[string]string `json:"strings,omitempty"`
+	Observed  []string          `json:"observed"`
 }
 
 type pathResult struct {
@@ -66,7 +77,7 @@ type HarnessResult struct {
 	SolverTime     float64             `json:"solver_time_s"`
 	SolverErrors   []string            `json:"solver_errors"`
 	Wall           float64             `json:"wall_s"`
-	Samples        []map[string]string `json:"samples"`
+	Samples        []*PathSample       `json:"samples"`
 	Funcs          []string            `json:"functions_encoded"`
 	Handlers       []string            `json:"intrinsics_and_stubs_used"`
 	Exhausted      bool                `json:"worklist_exhausted"`
@@ -147,18 +158,9 @@ func explore(env *Env, entry *ssa.Function, lim Limits) *HarnessResult {
 					key := fmt.Sprint(pr.witness)
 					if !witnessSeen[key] {
 						witnessSeen[key] = true
-						if len(res.Samples) < 6 {
-							s := map[string]string{"decisions": pr.trace}
-							for k, v := range pr.witness {
-								s[k] = fmt.Sprint(v)
-							}
-							for k, v := range pr.witnessStr {
-								s["str:"+k] = fmt.Sprintf("%q", v)
-							}
-							if len(pr.observed) > 0 {
-								s["observed"] = strings.Join(pr.observed, " | ")
-							}
-							res.Samples = append(res.Samples, s)
+						if len(res.Samples) < lim.MaxSamples {
+							res.Samples = append(res.Samples, &PathSample{Harness: entry.Name(), Decisions: pr.trace,
+								Model: pr.witness, Strings: pr.witnessStr, Observed: pr.observed})
 						}
 					}
 				}
@@ -300,7 +302,6 @@ func runPath(in *interpreter, entry *ssa.Function, prefix []decision, solver *So
 		pr.obligations, pr.discharged, pr.concreteOK = ps.obligations, ps.discharged, ps.concreteOK
 		pr.sites = ps.sitesHit
 		pr.unknowns = ps.unknowns
-		pr.observed = ps.observed
 		pr.trace = traceString(ps.trace)
 	}
 	func() {
@@ -314,8 +315,8 @@ func runPath(in *interpreter, entry *ssa.Function, prefix []decision, solver *So
 					return
 				}
 				finish("ok", "")
-				if m, s, ok := ps.model(); ok {
-					pr.witness, pr.witnessStr = m, s
+				if m, s, obs, ok := ps.model(); ok {
+					pr.witness, pr.witnessStr, pr.observed = m, s, obs
 				}
 			case pathEnd:
 				switch {
